@@ -69,7 +69,10 @@ def kernel(t, vfix, evecs, evals, n):
         Matrix m rows: all vertices, cols: times in t.
     """
     # h = evecs * ( exp(-evals * t) .* repmat(evecs(vfix,:)',1,length(t))  )
-    h = np.matmul(evecs[:, 0:n], (np.exp(np.matmul(-evals[0:n], t)) * evecs[vfix, 0:n]))
+    h = np.matmul(
+        evecs[:, 0:n],
+        (np.exp(np.matmul(-evals[0:n], t)) * evecs[vfix, 0:n][:, np.newaxis]),
+    )
     return h
 
 
